@@ -54,7 +54,12 @@ Proof.
 Qed.
 
 Lemma drop_last_empty_snoc ls : drop_last_empty (ls ++ [[]]) = ls.
-Proof. unfold drop_last_empty. rewrite rev_app_distr. cbn. apply rev_involutive. Qed.
+Proof.
+  induction ls as [|l ls IH]; [reflexivity|].
+  cbn [app drop_last_empty]. destruct (ls ++ [[]]) eqn:E.
+  - now destruct ls.
+  - now rewrite IH.
+Qed.
 
 Lemma map_drop_cr_safe ls : Forall safe_line ls -> map drop_cr ls = ls.
 Proof.
@@ -117,7 +122,12 @@ Proof.
 Qed.
 
 Lemma trim_one_nl_snoc s : trim_one_nl (s ++ [nl]) = s.
-Proof. unfold trim_one_nl. rewrite rev_app_distr. cbn. apply rev_involutive. Qed.
+Proof.
+  induction s as [|c s IH]; [reflexivity|].
+  cbn [app trim_one_nl]. destruct (s ++ [nl]) eqn:E.
+  - now destruct s.
+  - now rewrite IH.
+Qed.
 
 Lemma unlines_no_nl_inj a b : Forall no_nl a -> Forall no_nl b -> unlines a = unlines b -> a = b.
 Proof.
